@@ -272,6 +272,18 @@ def u2_rights(ck, ctx):
     ck.req(nv == {"$ty": "weechess_core::state::CastleRights", "kingside": False, "queenside": False}, "U2.none", "CastleRights::NONE", "", "CastleRights::NONE = %s" % nv)
 
 
+def _is_increment(t, old):
+    """old + 1, in the forms that agree with it wherever old + 1 exists: plain (checked) addition, saturating_add, checked_add(..).unwrap_or(MAX)."""
+    if t[0] == "bin" and t[1] in ("Add", "AddUnchecked"):
+        return old in (t[2], t[3]) and 1 in (const_value(t[2]), const_value(t[3]))
+    if t[0] == "call" and t[1].startswith("core::num::<impl ") and t[1].split("::")[-1] == "saturating_add":
+        return t[2][0] == old and const_value(t[2][1]) == 1
+    if t[0] == "call" and t[1].endswith("Option::<T>::unwrap_or") and t[2][0][0] == "call" and t[2][0][1].split("::")[-1] == "checked_add":
+        inner = t[2][0]
+        return inner[2][0] == old and const_value(inner[2][1]) == 1 and t[2][1][0] == "const"
+    return False
+
+
 def u3_u5_state_fields(ck, ctx):
     prog = ck.prog
     b = ctx["b"]
@@ -314,13 +326,13 @@ def u3_u5_state_fields(ck, ctx):
         if resets:
             okh = const_value(half) == 0
         else:
-            okh = half[0] == "bin" and half[1] == "Add" and old_half in (half[2], half[3]) and 1 in (const_value(half[2]), const_value(half[3]))
+            okh = _is_increment(half, old_half)
         if not okh or not cap:
             bad["half"] += 1
         blk = [tk for cc, tk in conds if cc[0] == "call" and cc[1].endswith("::eq") and any(mover_color(x) for x in cc[2]) and any(variant_name(x) == "Black" for x in cc[2])]
         old_full = ("field", ("field", ("param", 1), "clock"), "fullmove_number")
         if blk and blk[0] != 0:
-            okf = full[0] == "bin" and full[1] == "Add" and old_full in (full[2], full[3]) and 1 in (const_value(full[2]), const_value(full[3]))
+            okf = _is_increment(full, old_full)
         else:
             okf = full == old_full
         if not okf or not blk:
